@@ -24,6 +24,32 @@ H={
  'C14-r6b':"missed at first; caught (through the model comparison) since mcrewroute crews sometimes contain a machine whose specification cannot be loaded",
  'C16-r6b':"missed at first (the window is too small for a non-linearisable history to show); caught since the quick tier runs the concurrent clients under the race detector",
 }
+
+H.update({
+ 'C18-r6a':"missed at first (no concurrency in C18's runs); caught since C18 (and C10) also run the shared-spec component with walkers that each carry their own permanent bindings",
+ 'C19-r6a':"missed at first; caught since passed sessions are run a second time (an output met in an earlier run is not met again)",
+ 'C01-r7b':"missed at first; caught since the judged evaluation of every match case works on storage recycled from the previous case (same backing arrays and map objects, other contents)",
+ 'C04-r7b':"missed at first; caught since every fourth specification of the engine components is compiled with the no-op interpreters first (a tool's dry run)",
+ 'C08-r7a':"missed at first; caught since the walk cases carry the agreement of Walked.To/From/DoEmitted with the strides and the C08 oracle uses it",
+ 'C08-r7b':"missed at first; caught since scripts re-emit the very same object after changing it",
+ 'C09-r7a':"missed at first; caught since C09 also runs the sio crew histories with idle Stdio sessions between the folds",
+ 'C09-r7b':"missed at first; caught since C09 also runs the mcrew operation sequences (memory vs bolt store after every operation)",
+ 'C10-r7a':"missed at first; caught since every jsiso case also executes a script without any assignment operator that changes what it reaches through built-in methods",
+ 'C10-r7b':"missed at first; caught since C10 also runs the shared-spec component with per-walker permanent bindings",
+ 'C11-r7b':"missed at first; caught since jstimeout runs late joiners: an endless script started under a context that has ended while an earlier execution under the same context is still held in a native call",
+ 'C12-r7a':"missed at first; caught since the swap writers also compile a copy with an added action node without force and the compiled copy must not report an uncompiled action",
+ 'C13-r7a':"missed at first; caught since the compile component hands sio a Go-typed source whose inline specification went through a no-op dry run",
+ 'C13-r7b':"missed at first; caught since the compile component compiles a text-pattern specification unsuccessfully first (no interpreters) and then successfully on the same value",
+ 'C16-r7a':"missed at first; caught since mcrewseq has machines whose next state loses a binding",
+ 'C16-r7b':"missed at first; caught since add/rem operations are also issued under an already cancelled context",
+ 'C17-r7b':"missed at first; caught since the mcrew timers run has two requesters make the same id at the same moment (exactly one acceptance)",
+ 'C20-r7b':"missed at first; caught since one MermaidOpts value is shared by consecutive renderings",
+ 'C03-r7b':"NOT CAUGHT: the change adds a new feature (Modes: [\"strict\"] flips DefaultMatcher's switches while a guard runs); no generated specification uses that mode",
+ 'C05-r7b':"NOT CAUGHT: a per-Spec cache of action-less bindings nodes at which an earlier machine was stuck; needs a later machine to arrive there with bindings that match, as the last message of its batch",
+ 'C12-r7b':"NOT CAUGHT: the change adds a new feature (Modes: [\"exclusive\"]) with a hint stored in the shared specification; no generated specification uses that mode",
+ 'C16-r6a':"NOT CAUGHT: needs more than 64 machines changed by one operation and a failure inside a later slice of the split write",
+})
+
 import sys
 for d in sys.argv[1:]:
     n=os.path.basename(d.rstrip('/'))
